@@ -187,6 +187,9 @@ func (s *Server) next(ctx gorums.ServerCtx, tok uint64, ch chan Cmd) (Cmd, bool)
 		select {
 		case c := <-ch:
 			switch c.Kind {
+			case "sleep":
+				time.Sleep(time.Duration(c.Val) * time.Microsecond)
+				continue
 			case "release":
 				s.Tr.Emit("HRelease", s.ID, tok, "conn", ctx, "how", "cmd")
 				ctx.Release()
